@@ -165,7 +165,7 @@ def script_for_call(c, T):
         idx = (5 * c + torch.arange(int(n_paths))) % rets.size(0)
         r = rets[idx]
         spot = torch.cat([torch.ones(int(n_paths), 1, dtype=torch.float64), (1 + r).cumprod(-1)], dim=-1) * s0
-        return {"spot": spot.to(torch.get_default_dtype())}
+        return {"spot": spot.to(torch.get_default_dtype())}   # dyadic values: exact; a float64 instrument casts it up
     return script
 
 
@@ -213,7 +213,9 @@ def build_world(case, events):
     w = World()
     T = case.get("T", T_STEPS)
     torch.manual_seed(1000 + case.get("wseed", 0))
-    stock = market.primary("brownian", dtype=None, cost=1 / 256, dt=market.DT, sigma=0.25)
+    f64 = case.get("dtype") == "float64"
+    stock_cost = case.get("stock_cost", 1 / 256)
+    stock = market.primary("brownian", dtype=torch.float64 if f64 else None, cost=stock_cost, dt=market.DT, sigma=0.25)
     deriv = market.derivative("european", stock, T=T, strike=1.0)
     clause = case.get("clause")
     if clause == "cap":
@@ -272,6 +274,23 @@ def build_world(case, events):
         raise KeyError(mv)
     crit = make_criterion(case["criterion"])
     hedger = Hedger(model, inputs) if crit is None else Hedger(model, inputs, criterion=crit)
+    if f64:
+        hedger.double()
+        if w.mo_module is not None:
+            w.mo_module.double()
+    w.dtype = torch.float64 if f64 else torch.get_default_dtype()
+    # the harness' own record of the contract terms of the hedging instruments
+    w.costs = [stock_cost] + ([1 / 128] if hv == "stock+listed" else [])
+
+    def portfolio_model():
+        """Self-financing wealth of the hedge the model computes, from the harness' list of prices and cost rates
+        (pfhedge's pl() is C01's business and is used as the arithmetic)."""
+        from pfhedge.nn.functional import pl
+        hl = [stock] if hedge is None else hedge
+        spot = torch.stack([h.spot for h in hl], dim=1)
+        unit = hedger.compute_hedge(deriv, hedge=hedge)
+        return pl(spot=spot, unit=unit, cost=list(w.costs))
+    w.portfolio_model = portfolio_model
     model.probe.sink = events
     w.stock, w.derivative, w.listed, w.hedge, w.H, w.T = stock, deriv, listed, hedge, H, T
     w.hedger, w.model, w.fwd_per_eval = hedger, model, fwd
@@ -521,7 +540,7 @@ def run_reference(w, case, call):
             w.init_state, case["validation"],
             on_grad=lambda e, o: grads.append(snap(tracked(w), grads=True)),
             on_step=lambda e, o: after.append(snap(tracked(w))),
-            payoff_of=lambda: w.payoff_model(w.stock.spot))
+            payoff_of=lambda: w.payoff_model(w.stock.spot), portfolio_of=w.portfolio_model)
     except Exception as e:  # the reference itself uses pfhedge/torch pieces
         return type(e).__name__, None, grads, after
     return None, hist, grads, after
@@ -548,10 +567,9 @@ def unrolled_gradient(w, case, before, batch):
     units.append(units[-1])
     unit = torch.stack(units, dim=-1)                                   # (N, H, T)
     prices = [S]
-    costs = [1 / 256]
+    costs = list(w.costs)
     if H == 2:
         prices.append(torch.nn.functional.relu(S - 1.125) + 0.25 * S)
-        costs.append(1 / 128)
     wealth = S.new_zeros(N)
     for h in range(H):
         P, u, c = prices[h], unit[:, h, :], costs[h]
@@ -794,7 +812,7 @@ def _compare_call(ctx, case, call, ci, w, rec, events, params0, final, history, 
             ctx.violation(site, f"{pfx}history:length", f"history must have one entry per epoch (k={k})",
                           observed=_j(history), expected=k, block=mini)
         elif r_hist is not None:
-            eps = torch.finfo(torch.get_default_dtype()).eps
+            eps = torch.finfo(w.dtype).eps
             for e in range(k):
                 vals = r_hist[e]
                 exp = math.fsum(vals) / len(vals)
@@ -926,6 +944,8 @@ def run(ctx):
     ctx.alphabet("model", list(MODELS) + list(FROZEN))
     ctx.alphabet("criterion", list(CRITERIA) + list(NONFINITE))
     ctx.alphabet("verbose", [False, True])
+    ctx.alphabet("dtype", ["default float32", "float64"])
+    ctx.alphabet("hedge_cost_rates", [[1 / 256, 1 / 128], [0.0, 1 / 128]])
     ctx.alphabet("payoff_clause", [None, "cap at 1/16", "knock-out at 1.28125"])
     ctx.alphabet("hedge", list(HEDGES))
     ctx.alphabet("pre", list(PRES))
@@ -966,6 +986,15 @@ def run(ctx):
                           "content": [["erm", "none", None, 3], ["oce", "stock+listed", 1.25, 3]], "pre": ["fresh"],
                           "clause": ["cap", "knockout"]}}
         ctx.run("fit_scripted", _expand(p8, wseed))
+        # P9: float64 instruments and hedger (history entries are compared as python floats: bitwise for n_times = 1);
+        # P10: a hedge list whose cost rates are mixed (the stock is frictionless, the listed option is not)
+        p9 = {"product": {"k": [1, 2], "val_ntimes": [[True, 1], [True, 2]], "opt": ["default", "sgd_inst"], "model": ["mlp"],
+                          "content": [["erm", "none", None, 3], ["oce", "stock+listed", 1.25, 3]], "pre": ["fresh"], "dtype": ["float64"]}}
+        ctx.run("fit_scripted", _expand(p9, wseed))
+        p10 = {"product": {"k": [1, 2], "val_ntimes": [[True, 1]], "opt": ["default", "sgd_inst", "user_class"], "model": ["mlp", "lazy_mlp"],
+                           "content": [["erm", "stock+listed", None, 3], ["oce", "stock+listed", 1.25, 3]], "pre": ["fresh"],
+                           "stock_cost": [0.0]}}
+        ctx.run("fit_scripted", _expand(p10, wseed))
         two = _two_call_cases(wseed, [(1, 1), (2, 2), (0, 1)], [(True, 1), (False, 1)],
                               [["erm", "none", None, 3]], ["fresh"])
         two += _two_call_cases(wseed, [(1, 2)], [(True, 2)], [["oce", "stock+listed", 1.25, 1]], ["used"])
@@ -996,6 +1025,12 @@ def run(ctx):
         blocks.append(_expand({"product": {"k": [1, 2, 3], "val_ntimes": [[False, 1], [True, 2]], "opt": list(OPTS), "model": list(MODELS),
                                            "criterion": list(CRITERIA), "hedge": list(HEDGES), "init": [None, 1.25], "n_paths": [3],
                                            "pre": ["fresh"], "clause": ["cap", "knockout"]}}, wseed))
+        blocks.append(_expand({"product": {"k": [1, 2, 3], "val_ntimes": VN, "opt": list(OPTS), "model": ["mlp"],
+                                           "criterion": list(CRITERIA), "hedge": list(HEDGES), "init": [None, 1.25], "n_paths": [3],
+                                           "pre": ["fresh"], "dtype": ["float64"]}}, wseed))
+        blocks.append(_expand({"product": {"k": [1, 2, 3], "val_ntimes": [[False, 1], [True, 2]], "opt": list(OPTS), "model": ["mlp", "lazy_mlp"],
+                                           "criterion": list(CRITERIA), "hedge": ["stock+listed"], "init": [None, 1.25], "n_paths": [3],
+                                           "pre": ["fresh"], "stock_cost": [0.0]}}, wseed))
         for model in MODELS:
             blocks.append(_expand({"product": {"k": [0, 1, 2, 3], "val_ntimes": VN, "opt": list(OPTS), "model": [model],
                                                "criterion": ["erm", "oce"], "hedge": ["none", "stock+listed"], "init": [None],
